@@ -13,6 +13,7 @@ Every function returns (status, value) with status in
              scalars deliberately accept a wider lexical space (bool(x), str(x),
              int("3")); the monitor abstains (never flagged either way)
 """
+import math
 import collections
 
 from ..gen.schemair import BUILTIN_SCALARS, UNSET, EnumLit
@@ -55,6 +56,11 @@ def _scalar_literal(s, name, v):
         return ("ok", v)
     if name == "Float":
         if is_int or is_float:
+            try:
+                if not math.isfinite(float(v)):
+                    return ("reject", "Float literal is not finite")
+            except OverflowError:
+                return ("reject", "Float literal is not finite")
             return ("ok", float(v))
         return ("reject", "Float literal must be numeric")
     if name == "String":
@@ -106,12 +112,18 @@ def _scalar_json(s, name, v):
         return ("lenient", None)  # bool
     if name == "Float":
         if (is_int or is_float):
+            try:
+                if not math.isfinite(float(v)):
+                    return ("reject", "Float is not finite")
+            except OverflowError:
+                return ("reject", "Float is not finite")
             return ("ok", float(v))
         if structured:
             return ("reject", "structure for Float")
         if is_str:
             try:
-                float(v)
+                if not math.isfinite(float(v)):
+                    return ("reject", "non-finite string for Float")
             except ValueError:
                 return ("reject", "non-numeric string for Float")
         return ("lenient", None)
@@ -362,6 +374,8 @@ def conforms(s, t, v):
             return "Int outside 32-bit range"
         return None
     if name == "Float":
+        if isinstance(v, float) and not math.isfinite(v):
+            return "Float is not finite"
         return None if isinstance(v, float) else "Float is %s" % type(v).__name__
     if name in ("String", "ID"):
         return None if isinstance(v, str) else "%s is %s" % (name, type(v).__name__)
